@@ -23,7 +23,7 @@ func runSchedJob(c *Ctl, job *Job, idx int, res *RunResult) {
 	thorough := job.Tier == "thorough"
 	prof := &SchedProfile{
 		StepCap:  300,
-		WRelease: 10, WAdvance: 8, WBarrier: 2,
+		WRelease: 10, WAdvance: 8, WBarrier: 2, WMidpass: 3,
 		CancelAt: -1,
 	}
 	gen := SchedGenParams{MaxStages: 5, NestProb: 25, SharedNestProb: 35, FailProb: 30, AllowProb: 35, CondProb: 30, MaxDepth: 1}
